@@ -51,6 +51,16 @@ theorem flatten_arraySplit {β : Type} (l : List β) (n : Nat) (hn : 0 < n) :
 
 /-! ### the work list -/
 
+/-- the chunk lengths are the requested sizes whenever they fit -/
+theorem map_length_splitBySizes {β : Type} (ss : List Nat) (l : List β) (h : ss.sum ≤ l.length) :
+    (splitBySizes ss l).map List.length = ss := by
+  induction ss generalizing l with
+  | nil => simp [splitBySizes]
+  | cons s ss ih =>
+    simp only [List.sum_cons] at h
+    simp only [splitBySizes, List.map_cons, List.length_take]
+    rw [ih (l.drop s) (by simp; omega), Nat.min_eq_left (by omega)]
+
 theorem mem_pairList (Nu Nv i j : Nat) : (i, j) ∈ pairList Nu Nv ↔ i < Nv ∧ j < Nu := by
   unfold pairList
   simp only [List.mem_flatMap, List.mem_range, List.mem_map, Prod.mk.injEq]
